@@ -280,7 +280,7 @@ class FtpControl(fakenet.BaseServer):
             if not ok:
                 self.reply(ep, name, b'550 no such file\r\n')
                 return
-            counted = getattr(s.run, 'count_ftp', False) and name in ('LIST', 'RETR')
+            counted = getattr(s.run, 'count_ftp', False) and name in ('LIST', 'RETR', 'MLSD')
             if counted:
                 # (drivers/crawl.py, FTP scenarios) the request of the URL this command fetches
                 u = s.run.uid('ftp://f.test' + arg)
